@@ -288,18 +288,20 @@ pub fn run(args: &Args) -> i32 {
             }
         }
     }
-    let scratches: Vec<Scratch> = (0..engine::workers()).map(|_| Scratch::new("c32")).collect();
-    engine::par_for(items.len(), args.seed, |wi, i| {
-        let (b, p, l) = &items[i];
-        check(*b, p, *l, &scratches[wi], None);
-    });
+    let scratch = Scratch::new("c32");
+    let counts = |r: &Report| {
+        r.set("evaluations", json!(scenarios.load(Ordering::SeqCst)));
+        r.set("distinct_nontrivial", json!(faults.load(Ordering::SeqCst)));
+        r.set("faulted_steps", json!(steps.load(Ordering::SeqCst)));
+        r.set("fault_points", json!(faults.load(Ordering::SeqCst)));
+        r.set("scenarios_fully_fine", json!(fine.load(Ordering::SeqCst)));
+        r.set("distinct_final_states_of_fine_scenarios", json!(distinct.len()));
+    };
+    let last_name = |l: usize| if l < n_alpha { w.alpha[l].0 } else { maint_names[l - n_alpha] };
+    if engine::run_items_isolated(args, &report, items.len(), &|i| check(items[i].0, &items[i].1, items[i].2, &scratch, None), &counts, &|i| (format!("step={}", last_name(items[i].2)), format!("faulting `{}`", last_name(items[i].2)), w.replay_json(items[i].0, &items[i].1, json!({"last": last_name(items[i].2)})))) {
+        return 0;
+    }
     report.sample(json!({"history": w.replay_json(items[3].0, &items[3].1, json!(null)), "faulted_step": w.alpha[items[3].2.min(n_alpha - 1)].0, "fault": "each storage write/resize call of the step fails once", "then": follow_names}));
-    report.set("evaluations", json!(scenarios.load(Ordering::SeqCst)));
-    report.set("distinct_nontrivial", json!(faults.load(Ordering::SeqCst)));
-    report.set("faulted_steps", json!(steps.load(Ordering::SeqCst)));
-    report.set("fault_points", json!(faults.load(Ordering::SeqCst)));
-    report.set("scenarios_fully_fine", json!(fine.load(Ordering::SeqCst)));
-    report.set("distinct_final_states_of_fine_scenarios", json!(distinct.len()));
     report.set("history_depth", json!(depth));
     report.set("follow_ups", json!(follow_names));
     report.set("exhaustive", json!(true));
